@@ -16,6 +16,7 @@ pub mod c17;
 pub mod c18;
 pub mod c19;
 pub mod c20;
+pub mod rl;
 pub mod gen_error_variants;
 
 /// Shortest round-trip decimal literal of a float in a spelling the SCPI lexer accepts as <NRf>.
